@@ -63,11 +63,9 @@ package mast
 //@ smt (define-fun KeyAt ((h Heap) (r Int) (i Int)) Any (elemAt h (Node.Key h r) i))
 //@ smt (define-fun ValAt ((h Heap) (r Int) (i Int)) Any (elemAt h (Node.Value h r) i))
 //@ smt (define-fun LinkAt ((h Heap) (r Int) (i Int)) Any (elemAt h (Node.Link h r) i))
-//@ smt (define-fun isNil ((a Any)) Bool (= a anil))
 //@ smt (define-fun isPtr ((a Any)) Bool (and (= (a.tid a) tid.PmastNode) (> (a.val a) 0)))
 //@ smt (define-fun isName ((a Any)) Bool (= (a.tid a) tid.string))
 //@ smt (define-fun ptrLink ((r Int)) Any (mkAny tid.PmastNode r))
-//@ smt (define-fun isErr ((e Any)) Bool (not (= e anil)))
 // The root of a tree is nil, a node pointer or a node name.
 //@ smt (define-fun LinkOK ((a Any)) Bool (or (isNil a) (isPtr a) (isName a)))
 //@ smt (define-fun RootOK ((h Heap) (m Int)) Bool (LinkOK (Mast.root h m)))
@@ -329,6 +327,7 @@ package mast
 //@ ensures last (=> (and (not (isErr (Box.Any H err&))) (> n 0) (<= (Box.Int H cmp&) 0)) (and (< r n) (= (Box.Int H cmp&) (ord key (KeyAt H0 node r)))))
 
 //@ func (*mastNode).findNode
+//@ uses ordtrans
 //@ tags C01 C02 C10 C11 C12 C16
 //@ uses ord
 //@ modifies W G.loads Box.Any@fresh Box.Int@fresh Box.Bytes@fresh findOptions.path findOptions.currentHeight Arr.S_pathEntry Arr.Any@fresh Node.*@fresh mastNode.*@fresh
